@@ -93,9 +93,9 @@ fn s_small(t: &mut Tape, ctx: &mut Ctx) -> Result<(), Failure> {
 
 pub fn streams() -> Vec<Stream> {
     vec![
-        Stream { name: "general", kind: Kind::Tape { cases: |t: Tier| t.pick(3_000, 150_000), max_len: 600, f: s_general }, isolate: false },
-        Stream { name: "large", kind: Kind::Tape { cases: |t: Tier| t.pick(300, 25_000), max_len: 2000, f: s_large }, isolate: false },
-        Stream { name: "small", kind: Kind::Tape { cases: |t: Tier| t.pick(3_000, 150_000), max_len: 300, f: s_small }, isolate: false },
+        Stream { name: "general", kind: Kind::Tape { cases: |t: Tier| t.pick(3_000, 80_000), max_len: 600, f: s_general }, isolate: false },
+        Stream { name: "large", kind: Kind::Tape { cases: |t: Tier| t.pick(300, 6_000), max_len: 2000, f: s_large }, isolate: false },
+        Stream { name: "small", kind: Kind::Tape { cases: |t: Tier| t.pick(3_000, 80_000), max_len: 300, f: s_small }, isolate: false },
     ]
 }
 
